@@ -58,7 +58,8 @@ func propDefs() map[string]*PropDef {
 		Floor: 2000,
 		Assumptions: []string{
 			"SCOPE: this check decides the 'each call returns normally' half of C01 (no index/slice/nil/cast/overflow fault, no reachable panic, every callee precondition met) for Insert, Search and Delete of all six tree kinds, for every tree satisfying the typing invariant WF1 - i.e. every reachable tree, PROVIDED WF1 is preserved by Insert/Delete. The functional half (results equal those of an ideal map; no key lost or resurrected) needs the path-coherence invariant (rung 2 of DESIGN.md)and is NOT decided here",
-			"two clauses of the FUNCTIONAL half that need no ghost state are decided as well: Search reports 'present' only when the leaf it ends in holds exactly the searched (transformed) key and returns that leaf's value (found_sound); Delete unlinks only a leaf that holds exactly the searched key (removed_key_matches; on the relinking exit of the generated numeric/compound kinds the match is recorded by a ghost assignment at the deleteChild call); every leaf Insert creates holds exactly the inserted key and value (new_leaf_holds_key) and its overwrite exit writes the new value into the leaf that holds exactly that key (overwrite_key_matches). That every stored key is FOUND (completeness of the descent) is the part that needs path coherence",
+			"the DESCENT RULE of the radix tree is a step obligation of the descent loops of Search, Delete and Insert (step_ensures descent_rule): after one iteration the current node is the child the previous node registers - in its byte->child table as specified for its class - under the key byte at position (previous depth + previous node's compressed-path length), and depth has advanced by that length plus one. Search's hand-inlined per-class lookups are thereby checked against the node view; a wrong byte index or depth increment fails it",
+			"clauses of the FUNCTIONAL half that need no ghost state are decided as well: Search reports 'present' only when the leaf it ends in holds exactly the searched (transformed) key and returns that leaf's value (found_sound); Delete unlinks only a leaf that holds exactly the searched key (removed_key_matches; on the relinking exit of the generated numeric/compound kinds the match is recorded by a ghost assignment at the deleteChild call); every leaf Insert creates holds exactly the inserted key and value (new_leaf_holds_key) and its overwrite exit writes the new value into the leaf that holds exactly that key (overwrite_key_matches). That every stored key is FOUND (completeness of the descent) is the part that needs path coherence",
 			"WF1 preservation by Insert/Delete is proved for part of the cases only (evidence of C11 lists which); it is assumed here",
 			"ASSUMED, not proved: LinkedLive (no live node references a pooled or empty node: consequence of unique-parent ownership); acyclicity at the merge in Delete (the surviving child is not the holder of the relinked slot) and absence of uint32 overflow of the merged path length; key lengths and sizes < 2^31 / 2^62",
 			"three obligations of Insert (second branch byte differs from the first; long-path leaf key long enough; its extent) need path coherence and are generated but not claimed",
@@ -86,6 +87,7 @@ func propDefs() map[string]*PropDef {
 		Assumptions: []string{
 			"SCOPE: decides the 'returns normally' half of C03 and the empty-tree clause: Range of all six kinds, the closure it returns (rangeScan$1 per leaf class; the single-key closure of the numeric kinds) and their helpers carry an obligation at every index, slice, nil dereference, cast, unsafe.Slice, explicit panic and callee precondition, for every pair of bounds (empty, reversed, equal) and every tree satisfying WF1 - including the empty tree, where Range must not descend (defect F3, fixed: maximum() and the scan require a non-nil root, which the constructor must establish: captures clause); Range is proved to write nothing in the tree",
 			"'none outside', one clause of the functional half, is decided: whenever the scan calls yield, the leaf's stored key is neither below the start bound nor above the end bound in byte order (within_bounds at the yield call; model of bytes.Compare: sign of the result = lexicographic order, total)",
+			"every child pushed by the scan is recorded with depth = parent's depth + parent's compressed-path length + 1 (child_depth, an invariant of each of the four expansion loops; defect F4, fixed, and a wrong depth below one node class violate it)",
 			"per expansion step: a node that is not pruned has every one of its children pushed exactly once and at the position that makes the pops ascending by byte (every_child_pushed, count, order - the clauses of C02, on rangeScan's loops)",
 			"NOT decided: that pruning never discards a subtree that holds a key inside the bounds (defect F4, fixed, was of that kind) and hence that no key inside the bounds is missed; the global order of delivery. That needs the path-coherence invariant (rung 2) and a sequence-valued ghost result; defect F4 (fixed) was of that kind and is guarded by the seeded canary only through its safety symptoms",
 			"assumed: WF1 preservation, LinkedLive, as in C01; the overflow obligation of the per-entry depth counter is generated but not claimed",
@@ -99,6 +101,7 @@ func propDefs() map[string]*PropDef {
 		Floor: 150,
 		Assumptions: []string{
 			"SCOPE: decides the 'returns normally for every p and every tree shape' clause of C04: Prefix of the byte-string and collation trees, lowestCommonParent per leaf class (descent loop with invariant 0 <= depth <= len(prefix), live current node, and a decreasing measure: it terminates) and the filtering scan filter$1 carry an obligation at every index, slice, cast, unsafe.Slice and callee precondition, for every p and every tree satisfying WF1; the selected subtree is proved to be a live node of the same tree (ensures live). Defect F5 (fixed) had a panic of this kind as one symptom",
+			"lowestCommonParent follows the descent rule of the tree on the bytes of p (step_ensures descent_rule: next node = child registered under p[depth + path length], depth advances by path length + 1): a depth that overshoots behind a long compressed path fails it",
 			"'nothing that does not match', one clause of the functional half, is decided: the filtering scan calls yield only for a pair on which the predicate has just returned true (only_matching), and the predicate Prefix passes in is true exactly when the restored key's bytes start with p (is_has_prefix, for K = []byte resp. string)",
 			"NOT decided: that the selected subtree contains every matching key (rung 2) and the order of delivery",
 		},
